@@ -52,6 +52,147 @@ def mk_dumped_resource(it, hint='resource'):
     return rw
 
 
+# ------------------------------------------------------------------------------------------------ FileDumper: which format, which file
+
+def sym_file_dumper_dispatch(vc):
+    """FileDumper.process_datapackage: per resource, in order, the format is the forced one (force_format, the default) or the
+    extension of the resource's path; a custom formatter for that format wins over the built-in table (csv, json, geojson, excel,
+    xlsx); a resource with a formatter gets prepare_resource exactly once, is committed, and ITS descriptor replaces the i-th entry
+    of the package descriptor; a resource without one is left exactly as it was and is not registered.
+       FileDumper.process_resource: a registered resource gets exactly one temporary file (text mode with newline='' / binary as the
+    format says, never deleted on close) and a writer of its registered format built on that file and the resource's schema;
+    the result is the lazy rows_processor over (resource, writer, file) -- no row is pulled; an unregistered resource is returned
+    as the same object"""
+    import z3
+    from pyvc.api import real_function, check, cover, Opaque, PyDict, PyList, UFunc, GenObj, sym_str, term, StrS, LoopSpec
+    from pyvc.symex import Ev
+    fk = vc.under_contract(D + 'file_dumper.py', ['FileDumper', 'process_datapackage'])
+    vc.under_contract(D + 'file_dumper.py', ['FileDumper', '__init__'])
+    for forced, custom in ((True, False), (True, True), (False, False)):
+        def thunk(it, forced=forced, custom=custom):
+            m = it.module('dataflows.processors.dumpers.file_dumper')
+            mine = Opaque('formatter', 'custom_csv_formatter')
+            prepared = []
+
+            def fmt(name):
+                o = Opaque('formatter', name)
+                o.attrs['call:prepare_resource'] = lambda it_, ob, a, k: prepared.append((name, a[0]))
+                return o
+            table = {n: fmt(n) for n in ('CSVFormat', 'JSONFormat', 'GeoJSONFormat', 'ExcelFormat')}
+            mine.attrs['call:prepare_resource'] = lambda it_, ob, a, k: prepared.append(('custom', a[0]))
+            for n, o in table.items():
+                m.attrs[n] = o
+            opts = {} if forced else {'force_format': False}
+            if custom:
+                opts['file_formatters'] = PyDict({'csv': mine})
+            d = mk_dumper(it, options=opts)
+            exts = ['.json', '.tsv', '.csv', '.xlsx', '.geojson', '.excel', '']
+            ress = []
+            descs = []
+            for i, ext in enumerate(exts):
+                r = Opaque('Resource', 'res%d' % i)
+                r.attrs['name'] = 'r%d' % i
+                r.attrs['source'] = 'data/file%d%s' % (i, ext)
+                r.attrs['descriptor'] = PyDict({'name': 'r%d' % i, 'path': r.attrs['source']})
+                r.commits = 0
+
+                def commit(it_, ob, a, k, r=r):
+                    r.commits += 1
+                    # commit() re-reads the descriptor: a fresh object with the edited content
+                    r.attrs['descriptor'] = PyDict(dict(r.attrs['descriptor'].d, committed=True))
+                r.attrs['call:commit'] = commit
+                ress.append(r)
+                descs.append(r.attrs['descriptor'])
+            dp = Opaque('Package', 'incoming')
+            dp.attrs['resources'] = PyList(ress)
+            dp.attrs['descriptor'] = PyDict({'resources': PyList(list(descs))})
+            # the base class step is under its own contract (copies counters config, keeps the package)
+            base = it.module('dataflows.processors.dumpers.dumper_base').attrs['DumperBase']
+            base_calls = []
+            base.methods['process_datapackage'] = UFunc('DumperBase.process_datapackage', lambda it_, a, k: (base_calls.append(a[1]), a[1])[1], False)
+            out = it.call(it.lib.getattr_(it, d, 'process_datapackage'), [dp])
+            check(it, 'base-class-step-runs-once-on-the-package' + '[forced=%s,custom=%s]' % (forced, custom), base_calls == [dp])
+            tag = '[forced=%s,custom=%s]' % (forced, custom)
+            ff = d.attrs.get('file_formatters')
+            want = {}
+            for i, ext in enumerate(exts):
+                f = 'csv' if forced else ext[1:]
+                o = (mine if custom and f == 'csv' else {'csv': table['CSVFormat'], 'json': table['JSONFormat'], 'geojson': table['GeoJSONFormat'],
+                                                          'excel': table['ExcelFormat'], 'xlsx': table['ExcelFormat']}.get(f))
+                if o is not None:
+                    want['r%d' % i] = o
+            check(it, 'returns-the-package-it-was-given' + tag, out is dp)
+            check(it, 'formatter-by-forced-format-or-by-extension-custom-first' + tag, isinstance(ff, PyDict) and set(ff.d) == set(want) and
+                  all(ff.d[k] is v for k, v in want.items()))
+            check(it, 'each-registered-resource-prepared-once-in-order' + tag,
+                  [r for _n, r in prepared] == [ress[i] for i in range(len(exts)) if 'r%d' % i in want])
+            for i, r in enumerate(ress):
+                entry = dp.attrs['descriptor'].d['resources'].items[i]
+                if 'r%d' % i in want:
+                    check(it, 'registered-resource-committed-and-its-descriptor-installed' + tag + '[%d]' % i,
+                          r.commits == 1 and entry is r.attrs['descriptor'])
+                else:
+                    check(it, 'resource-of-an-unknown-format-left-as-it-was' + tag + '[%d]' % i, r.commits == 0 and entry is descs[i])
+            cover(it, 'reachable' + tag)
+        paths = vc.explore(fk, thunk)
+        expect_no_raise_or_same(vc, fk, paths)
+    fk2 = vc.under_contract(D + 'file_dumper.py', ['FileDumper', 'process_resource'])
+    for registered, mode, titles in ((True, 'w+', False), (True, 'w+b', False), (True, 'w+', True), (False, None, False)):
+        def thunk2(it, registered=registered, mode=mode, titles=titles):
+            m = it.module('dataflows.processors.dumpers.file_dumper')
+            files = []
+
+            def tmp(it_, a, k):
+                f = Opaque('tempfile', 'temp_file%d' % len(files))
+                files.append((f, dict(k), list(a)))
+                return f
+            m.attrs['UmaskNamedTemporaryFile'] = UFunc('UmaskNamedTemporaryFile', tmp, False)
+            made = []
+            formatter = Opaque('formatter', 'registered_formatter')
+            formatter.attrs['FILE_MODE'] = mode
+            formatter.attrs['__callable__'] = True
+
+            def mk_writer(it_, ob, a, k):
+                w = Opaque('writer', 'writer%d' % len(made))
+                made.append((w, list(a), dict(k)))
+                return w
+            formatter.attrs['call:__call__'] = mk_writer
+            d = mk_dumper(it, options=dict({'temporal_format_property': 'outputFormat'}, **({'use_titles': True} if titles else {})),
+                          stub=('rows_processor',))
+            r = mk_dumped_resource(it, 'resource')
+            schema = Opaque('Schema', 'schema_of_the_resource')
+            r.attrs['res'].attrs['schema'] = schema
+            name = r.attrs['res'].attrs['name']
+            d.attrs['file_formatters'] = PyDict({name: formatter} if registered else {})
+            n0 = len(it.path.events)
+            out = it.call(it.lib.getattr_(it, d, 'process_resource'), [r])
+            evs = it.path.events[n0:]
+            tag = '[registered=%s,mode=%s,titles=%s]' % (registered, mode, titles)
+            if not registered:
+                check(it, 'unregistered-resource-returned-as-it-is' + tag, out is r and not files and not made and not calls(evs, target='rows_processor'))
+                return
+            check(it, 'exactly-one-temporary-file-never-deleted-on-close' + tag, len(files) == 1 and files[0][1].get('delete') is False and
+                  files[0][1].get('mode') == mode)
+            if len(files) == 1:
+                nl = files[0][1].get('newline')
+                check(it, 'text-files-written-without-newline-translation-binary-files-as-they-are' + tag,
+                      (nl == '' if 'b' not in mode else nl is None))
+            ok = len(made) == 1 and len(files) == 1 and made[0][1][:2] == [files[0][0], schema]
+            check(it, 'one-writer-of-the-registered-format-on-that-file-and-schema' + tag, ok)
+            if ok:
+                kw = made[0][2]
+                check(it, 'writer-gets-the-temporal-format-property-and-the-resource' + tag,
+                      kw.get('temporal_format_property') == 'outputFormat' and kw.get('resource') is r.attrs['res'])
+                check(it, 'titles-as-headers-iff-asked-for' + tag, (kw.get('use_titles') is True) == titles)
+            rp = calls(evs, target='rows_processor')
+            check(it, 'result-is-the-rows-processor-over-resource-writer-file' + tag, len(rp) == 1 and len(made) == 1 and len(files) == 1 and
+                  list(rp[0].objs) == [r, made[0][0], files[0][0]] and it.cell_of(out) == rp[0].result)
+            check(it, 'no-row-pulled-by-the-dispatcher' + tag, r.stream.drained is False and not [e for e in evs if e.kind in ('Pull', 'Drain')])
+            cover(it, 'reachable' + tag)
+        paths = vc.explore(fk2, thunk2)
+        expect_no_raise_or_same(vc, fk2, paths)
+
+
 # ------------------------------------------------------------------------------------------------ process_resources
 
 def sym_process_resources(vc):
